@@ -324,15 +324,3 @@ pub fn c17_build_loader_name() {
 pub fn c17_build_module() {
     roundtrip(3, nd::any_bool(), false, 5);
 }
-
-// @harness props=C17 tier=thorough panic=forbid builder=yes timeout=1800
-// @encodes CommandLineTag::new + cmdline(), BootLoaderNameTag::new + name(), ModuleTag::new + cmdline() (read-back through core's memchr / UTF-8 validation)
-// @bound texts of 0..=2 bytes, with and without caller-supplied NUL
-#[cfg_attr(kani, kani::proof)]
-#[cfg_attr(kani, kani::unwind(9))]
-#[cfg(feature = "builder")]
-pub fn c17_build_readback_2() {
-    let k: u8 = nd::any();
-    nd::assume(k >= 1 && k <= 3);
-    roundtrip(k, nd::any_bool(), true, 2);
-}
